@@ -22,14 +22,15 @@ var engDebug = os.Getenv("PCHECK_DEBUG") != ""
 
 // Engine is the path-sensitive abstract interpreter for clients of parse.Input.
 type Engine struct {
-	itabMu  sync.Mutex
-	pure    map[*ssa.Function]bool
-	writes  map[*ssa.Function]bool
-	itables map[string]*[256]int64
-	derived map[string]*[256]bool
-	r       *core.Run
-	prog    *core.Program
-	cfg     EngCfg
+	itabMu    sync.Mutex
+	pure      map[*ssa.Function]bool
+	failExits map[*ssa.Function][]failExit
+	writes    map[*ssa.Function]bool
+	itables   map[string]*[256]int64
+	derived   map[string]*[256]bool
+	r         *core.Run
+	prog      *core.Program
+	cfg       EngCfg
 
 	obs                map[string]*engOb
 	obOrder            []string
@@ -93,7 +94,7 @@ type fnInfo struct {
 func NewEngine(r *core.Run, cfg EngCfg) *Engine {
 	e := &Engine{r: r, prog: r.Prog, cfg: cfg, obs: map[string]*engOb{}, finfo: map[*ssa.Function]*fnInfo{},
 		tables: map[*ssa.Global]*[256]bool{}, bmaps: map[*ssa.Global]map[int64]int64{}, smaps: map[*ssa.Global][]int64{},
-		atLike: map[*ssa.Function]int{}, infoBusy: map[*ssa.Function]bool{}, summ: map[*ssa.Function]map[string][]summary{}, usesLCache: map[*ssa.Function]bool{}, rwCache: map[*ssa.Function]*heapSet{}, maxSteps: 4_000_000, loopsSeen: map[string]bool{}}
+		atLike: map[*ssa.Function]int{}, infoBusy: map[*ssa.Function]bool{}, summ: map[*ssa.Function]map[string][]summary{}, usesLCache: map[*ssa.Function]bool{}, rwCache: map[*ssa.Function]*heapSet{}, maxSteps: 4_000_000, loopsSeen: map[string]bool{}, failExits: map[*ssa.Function][]failExit{}}
 	e.reach = sharedReach(r.Prog)
 	return e
 }
